@@ -6,7 +6,8 @@ from props.common import TRUSTED_BASE, ASSUMPTIONS as _A
 ID = 'C16'
 LEAN_MODULES = ['HidVerif.Props.C16']
 THEOREMS = ['HidVerif.Props.C16.analysis_sound', 'HidVerif.Props.C16.dropped_is_unreachable', 'HidVerif.Props.C16.exits_reflected',
-            'HidVerif.Hid.Exit.exits_sound', 'HidVerif.Hid.Exit.modes_lt']
+            'HidVerif.Hid.Exit.exits_sound', 'HidVerif.Hid.Exit.modes_lt',
+            'HidVerif.Props.C16.core_entry_never_falls_off', 'HidVerif.Props.C16.core_activation_returns_to_caller']
 TRUSTED = TRUSTED_BASE + ['Hid/ExitModes.lean: model of the exit-mode bookkeeping of blocks.py and an abstract control-flow semantics; tied by '
                           'the exit suite (every block mode of every accepted function recomputed)',
                           'Sphinx/Monitor.lean fall-through monitor (a function entry must be reached by a taken jump)']
@@ -82,7 +83,10 @@ def run(ctx):
         elif k == 'agree': agree += 1
     ctx.stats['monitored'] = dict(accepted=len(cases), rejected_by_compiler=len(rejected), findings=bad, agree=agree)
     ctx.say('accepted shapes on the VM with the fall-through monitor: %d, findings %d (rejected by the compiler: %d)' % (len(cases), bad, len(rejected)))
-    ctx.stats['evaluations'] = len(texts) + len(cases)
+    # the verified core ((d) is proved for Compiler/Core.lean): its tie to the real compiler, and the same programs against the reference
+    cj = suites.core_suite(ctx, ctx.budget(80, 1200), faults=0.0)
+    suites.differential(ctx, cj, {}, label='core-programs', must_compile=True)
+    ctx.stats['evaluations'] = ctx.stats.get('evaluations', 0) + len(texts) + len(cases)
     ctx.stats['distinct_nontrivial'] = ctx.stats['exit_correspondence']['functions'] - ctx.stats['exit_correspondence']['mismatches']
     ctx.samples.append(dict(program=texts['s0']))
 
